@@ -86,7 +86,8 @@ pub fn run(case: &Value, ctx: &Ctx) -> Outcome {
     let mut out = Outcome::default();
     let kind = case["kind"].as_str().unwrap();
     out.tag(format!("kind:{kind}"));
-    let stats = case["stats"].as_object().unwrap();
+    let empty = serde_json::Map::new();
+    let stats = case["stats"].as_object().unwrap_or(&empty);
     match kind {
         "geno" => {
             let pops = usizes(&case["pops"]);
@@ -127,6 +128,33 @@ pub fn run(case: &Value, ctx: &Ctx) -> Outcome {
             let text = cli::write_text(&[n + 1], &cells, 0);
             let scs = Scs::new(cells, vec![n + 1]).unwrap();
             check_all(&mut out, ctx, &text, &scs, stats, "estimator");
+        }
+        "layout" => {
+            let shape = usizes(&case["shape"]);
+            let cells: Vec<f64> = case["cells"].as_array().unwrap().iter().map(qnum).collect();
+            let names: Vec<&str> = case["stats"].as_array().unwrap().iter().map(|s| cli_name(s.as_str().unwrap())).collect();
+            let precs: Vec<String> = case["precs"].as_array().unwrap().iter().map(|p| p.to_string()).collect();
+            let delim = case["delim"].as_str().unwrap();
+            let header = case["header"].as_bool().unwrap();
+            out.nontrivial = Some(format!("{shape:?}/{names:?}/{precs:?}/{header}/{delim}"));
+            let text = cli::write_text(&shape, &cells, 0);
+            let (sj, pj) = (names.join(","), precs.join(","));
+            let mut args = vec!["stat", "-s", &sj, "--precision", &pj, "-d", delim];
+            if header {
+                args.push("-H");
+            }
+            let r = cli::sfs(ctx, &args, Some(&text));
+            let want_exit = case["exit"].as_i64().unwrap();
+            let want_lines: Vec<&str> = case["lines"].as_array().unwrap().iter().map(|l| l.as_str().unwrap()).collect();
+            if r.panicked() {
+                out.fail("stats/layout/panic", json!({"args": args, "stderr": r.stderr}));
+            } else if want_exit == 0 {
+                let got = String::from_utf8_lossy(&r.stdout).to_string();
+                let got_lines: Vec<&str> = got.lines().collect();
+                out.check(r.ok() && got_lines == want_lines && got.ends_with('\n'), || "stats/layout/stdout".into(), || json!({"args": args, "got": got, "want": want_lines, "stderr": r.stderr}));
+            } else {
+                out.check(!r.ok() && r.stdout.is_empty() && !r.stderr.trim().is_empty(), || "stats/layout/error-case".into(), || json!({"args": args, "code": r.code, "stdout": String::from_utf8_lossy(&r.stdout), "stderr": r.stderr}));
+            }
         }
         other => out.fail("stats/unknown-kind", json!(other)),
     }
